@@ -339,6 +339,87 @@ fn c28_vacuum_after_compact() -> i32 {
     }
 }
 
+/// Witness class for C28 (bounded): indexes and vectors.  Two indexes created before the data, a third after a
+/// compaction, 300 labelled nodes with a string and an integer property each, 40 vectors; two compactions.  The
+/// database is closed, vacuumed and reopened: index lookups for a sample of values, the vector search results for
+/// three queries, labels and external ids must be what they were; then it is written to, compacted and reopened again.
+fn c28_vacuum_indexes() -> i32 {
+    use nervusdb_api::{GraphSnapshot, GraphStore, PropertyValue as V};
+    let d = tmpdir("c28-idx");
+    let ndb = d.join("t.ndb");
+    let wal = d.join("t.wal");
+    const N: u32 = 300;
+    let name = |i: u32| format!("person-{:04}-{}", i, "x".repeat((i % 7) as usize * 30));
+    let r = std::panic::catch_unwind(|| -> Result<(), String> {
+        type Dump = (Vec<Option<Vec<u32>>>, Vec<Option<Vec<u32>>>, Vec<Option<Vec<u32>>>, Vec<Vec<(u32, u32)>>, Vec<Option<u64>>);
+        let dump = |e: &GraphEngine, ids: &Vec<u32>| -> Result<Dump, String> {
+            let s = e.snapshot();
+            let norm = |v: Option<Vec<u32>>| v.map(|mut x| { x.sort(); x });
+            let by_name: Vec<Option<Vec<u32>>> = (0..N).step_by(7).map(|i| norm(s.lookup_index("Person", "name", &V::String(name(i))))).collect();
+            let by_age: Vec<Option<Vec<u32>>> = (0..40i64).map(|a| norm(s.lookup_index("Person", "age", &V::Int(a)))).collect();
+            let by_city: Vec<Option<Vec<u32>>> = (0..5u32).map(|c| norm(s.lookup_index("Person", "city", &V::String(format!("city-{c}"))))).collect();
+            let mut vec_hits = Vec::new();
+            for q in [[0.0f32, 0.0, 0.0, 0.0], [10.0, 1.0, 0.0, 3.0], [39.0, 3.0, 1.0, 9.0]] {
+                let hits = e.search_vector(&q, 5).map_err(|e| format!("search_vector failed: {e}"))?;
+                vec_hits.push(hits.into_iter().map(|(id, dist)| (id, dist.to_bits())).collect());
+            }
+            let ext: Vec<Option<u64>> = ids.iter().map(|id| s.resolve_external(*id)).collect();
+            Ok((by_name, by_age, by_city, vec_hits, ext))
+        };
+        let mut ids: Vec<u32> = Vec::new();
+        {
+            let e = GraphEngine::open(&ndb, &wal).map_err(|e| e.to_string())?;
+            let label = e.get_or_create_label("Person").map_err(|e| e.to_string())?;
+            e.create_index("Person", "name").map_err(|e| e.to_string())?;
+            e.create_index("Person", "age").map_err(|e| e.to_string())?;
+            let mut tx = e.begin_write();
+            for i in 0..N { ids.push(tx.create_node(70_000 + i as u64, label).map_err(|e| e.to_string())?); }
+            for i in 0..N {
+                tx.set_node_property(ids[i as usize], "name".to_string(), V::String(name(i)));
+                tx.set_node_property(ids[i as usize], "age".to_string(), V::Int((i % 40) as i64));
+                tx.create_edge(ids[i as usize], 4, ids[((i + 1) % N) as usize]);
+            }
+            tx.commit().map_err(|e| e.to_string())?;
+            e.compact().map_err(|e| format!("compact failed: {e}"))?;
+            e.create_index("Person", "city").map_err(|e| e.to_string())?;
+            let mut tx = e.begin_write();
+            for i in 0..N { if i % 3 == 0 { tx.set_node_property(ids[i as usize], "city".to_string(), V::String(format!("city-{}", i % 5))); } }
+            tx.commit().map_err(|e| e.to_string())?;
+            for i in 0..40u32 { e.insert_vector(ids[i as usize], vec![i as f32, (i % 4) as f32, (i % 2) as f32, (i % 10) as f32]).map_err(|e| format!("insert_vector failed: {e}"))?; }
+            e.compact().map_err(|e| format!("second compact failed: {e}"))?;
+        }
+        let before = { let e = GraphEngine::open(&ndb, &wal).map_err(|e| e.to_string())?; dump(&e, &ids)? };
+        if before.0.iter().all(|x| x.as_ref().map(|v| v.is_empty()).unwrap_or(true)) { return Err("index lookups return nothing before the vacuum (scenario does not exercise the indexes)".into()); }
+        nervusdb_storage::vacuum::vacuum_in_place(&ndb, &wal).map_err(|e| format!("vacuum failed on a database with three indexes and vectors: {e}"))?;
+        {
+            let e = GraphEngine::open(&ndb, &wal).map_err(|e| format!("open after vacuum failed: {e}"))?;
+            let after = dump(&e, &ids)?;
+            if before != after {
+                return Err(format!("content changed by vacuum: index name equal={}, index age equal={}, index city (created after a compaction) equal={}, vector search equal={}, external ids equal={}",
+                    before.0 == after.0, before.1 == after.1, before.2 == after.2, before.3 == after.3, before.4 == after.4));
+            }
+            let label = e.get_or_create_label("Person").map_err(|e| e.to_string())?;
+            let mut tx = e.begin_write();
+            let extra = tx.create_node(99_999, label).map_err(|e| format!("create_node after vacuum failed: {e}"))?;
+            tx.set_node_property(extra, "name".to_string(), V::String("after-vacuum".into()));
+            tx.commit().map_err(|e| format!("commit after vacuum failed: {e}"))?;
+            e.compact().map_err(|e| format!("compact after vacuum failed: {e}"))?;
+        }
+        let e = GraphEngine::open(&ndb, &wal).map_err(|e| format!("reopen after post-vacuum write failed: {e}"))?;
+        let again = dump(&e, &ids)?;
+        if again != before { return Err("content of the old nodes changed after a post-vacuum write, compaction and reopen".into()); }
+        let s = e.snapshot();
+        match s.lookup_index("Person", "name", &V::String("after-vacuum".into())) { Some(v) if v.len() == 1 => {} other => return Err(format!("node written after the vacuum is not found through the index: {:?}", other)) }
+        Ok(())
+    });
+    let _ = std::fs::remove_dir_all(&d);
+    match r {
+        Ok(Ok(())) => { println!("conforms: vacuum kept three indexes (one created after a compaction), 40 vectors and their search results, labels and external ids; the database stayed usable"); 0 }
+        Ok(Err(e)) => { println!("VIOLATION reproduced: {e}"); 1 }
+        Err(_) => { println!("VIOLATION reproduced: panic"); 1 }
+    }
+}
+
 /// Witness class for C28 (bounded): databases that need something specific from the marker and the copy.
 /// (a) node count an exact multiple of the records per node-table page, never compacted; (b) the same after a
 /// compaction that relocated the table; (c) a property B-tree with three levels (long property names), several
@@ -820,6 +901,7 @@ fn main() {
         Some("c17_commit_after_tail") => c17_commit_after_tail(&[0x01, 0x02]),
         Some("c18_node_table_spill") => c18_node_table_spill(),
         Some("c28_vacuum_large") => c28_vacuum_large(),
+        Some("c28_vacuum_indexes") => c28_vacuum_indexes(),
         Some("c25_prefix_sweep") => { std::panic::set_hook(Box::new(|_| {})); c25_prefix_sweep() }
         Some("c25_deep_nesting") => c25_deep_nesting(),
         Some("c25_deep_nesting_child") => c25_deep_nesting_child(),
